@@ -207,6 +207,23 @@ def nesterov_loop_correspondence(R, cases, tier):
                                  f"{why[:600]} on c1={json.dumps(c['c1'])} c2={json.dumps(c['c2'])}")
 
 
+def projection_correspondence(R, tier, pid=PID):
+    """unit correspondence: /repo's project_line_origin / project_triangle_origin / project_tetra_to_origin (both Nesterov
+    modules) against Model/NesterovLoop.v on generated simplices, incl. tetrahedra directed at EVERY leaf of the 43-leaf tree"""
+    try:
+        stats, mism, hits = ncorr9.compare_projections(pid, R.rng, 600 if tier == "quick" else 4000,
+                                                       per_leaf=8 if tier == "quick" else 40)
+    except RuntimeError as e:
+        R.corr_broken.append(f"projection correspondence could not be evaluated: {str(e)[:300]}")
+        return
+    stats["statement_coverage_of_the_projections"] = ncorr9.projection_leaf_coverage(cm.REPO, hits)
+    R.cov["projection_unit_correspondence"] = stats
+    for (i, name, why, P) in mism[:5]:
+        mod = "_gjk_nesterov_accelerated.py" if name == "generic" else "_gjk_nesterov_accelerated_primitives.py"
+        R.failure(f"simplex projection of {mod} differs from the model Model/NesterovLoop.v on a {len(P)}-point simplex: {why[:500]}",
+                  dict(simplex=P, module=mod), site=f"{mod}:project_{ {2: 'line', 3: 'triangle', 4: 'tetra_to'}[len(P)] }_origin")
+
+
 def run(tier, seed, replay=None):
     R = cm.Run(PID, "translation_validation", tier, seed)
     _t = [time.time()]
@@ -409,4 +426,7 @@ def run(tier, seed, replay=None):
     phase("judging")
     nesterov_loop_correspondence(R, cases, tier)
     phase("nesterov_correspondence")
+    if not replay:
+        projection_correspondence(R, tier)
+        phase("projection_unit_correspondence")
     return R.finish()
